@@ -135,7 +135,7 @@ impl<const CAP: usize> HasModel for SetUnion<CapSet<u8, CAP>> {
         let s = self.as_reveal_ref();
         let mut i = 0;
         while i < s.len {
-            m.items[i] = s.items[i].unwrap();
+            m.items[i] = s.items[i];
             i += 1;
         }
         assert!(s.len <= MS, "MSet capacity (harness sizing error)");
@@ -154,7 +154,7 @@ impl<const CAP: usize> Lat for SetUnion<CapSet<u8, CAP>> {
                 let x: u8 = any();
                 // representation invariant of a set: distinct elements
                 assume(!s.has(&x));
-                s.items[s.len] = Some(x);
+                s.items[s.len] = x;
                 s.len += 1;
             }
             i += 1;
@@ -315,7 +315,7 @@ pub fn set_of<const CAP: usize>(n: usize) -> SetUnion<CapSet<u8, CAP>> {
     while i < n {
         let x: u8 = any();
         assume(!s.has(&x));
-        s.items[i] = Some(x);
+        s.items[i] = x;
         s.len = i + 1;
         i += 1;
     }
